@@ -12,10 +12,10 @@ RULE = (
     "Metamorphic: a generated graph (every family, odometry + landmark edges with rotated offsets, loops, parallel/reversed edges, any ids/order, "
     "SPD information with cross terms) inside the convergence neighbourhood and a rigid transform T (any rotation incl. ~180 degrees, translation "
     "magnitude 1..1e6; a translation for R^n graphs); g' = {T (+) v} is built with the reference model. (1) every edge error and chi2 are equal; "
-    "(2) after optimize(tol=0,max_iter=k), k in 1..5, T (+) v_k = v'_k for every vertex. Non-trivial = T rotates by > 0.1 rad (SE families) and "
+    "(2) after optimize(tol=0,max_iter=k), k in 1..5, T (+) v_k = v'_k for every vertex; (3) the same after a default optimize() that stops by its own convergence test (skipped when a stopping comparison is within rounding of its threshold). Non-trivial = T rotates by > 0.1 rad (SE families) and "
     "translates by > 1, and the graph has a loop closure or a landmark."
 )
-BUDGET = {"quick": 16 * 200, "thorough": 16 * 6000}
+BUDGET = {"quick": 16 * 800, "thorough": 16 * 6000}
 TOLERANCES = {
     "errors": "1e-10*(1+S+S_T) translation rows, 1e-10 rotation rows",
     "chi2": "sum over edges of (1e-9*A + error-propagation bound), see C02",
@@ -26,7 +26,7 @@ ASSUMPTIONS = ["trajectory comparison restricted to the numerically stable regim
 
 @S.composite
 def strategy_(g):
-    case = GG.gen(g, n_pose=(2, 8), n_lm=(0, 3), n_loops=(0, 3), conds=(1.0, 1e2), noise=(0.05, 0.05), pert=(0.3, 0.3), features=("parallel", "reversed", "permute", "ids", "multifixed", "rn_lm_offsets"))
+    case = GG.gen(g, n_pose=(2, 8), n_lm=(0, 3), n_loops=(0, 3), conds=(1.0, 1e2), noise=(0.05, 0.05), pert=(0.3, 0.3), features=("parallel", "reversed", "permute", "ids", "multifixed", "rn_lm_offsets", "quat-signs"))
     base = case["base"]
     sT = g.choice([1.0, 10.0, 1e3, 1e6])
     T = g.pose(base, s=sT)
@@ -139,3 +139,27 @@ def check(case, ctx):
             return ctx.fail("trajectory-frame-dependent", "vertex #%d after %d iteration(s): T(+)v_k differs from v'_k by (%.3e, %.3e), tol (%.3e, %.3e)" % (i, k, dt, dr, tt, tr))
     ctx.deviation("trajectory translation", worst_t, 1.0)
     ctx.deviation("trajectory rotation", worst_r, 1.0)
+
+    # (3) a run that stops by its own convergence test (default tol) also commutes with T
+    from .c08 import _report_ambiguous
+
+    g3, g4 = GG.build(case), GG.build(case2)
+    ra, _ = GC.optimize_quiet(g3, fix_first_pose=ff, verbose=False)
+    rb, _ = GC.optimize_quiet(g4, fix_first_pose=ff, verbose=False)
+    rn = 1e-9 * (1 + S_ + ST) * amp
+    if not GC.all_finite(g3) or _report_ambiguous(ra, 1e-4, rn, tol_sum) or _report_ambiguous(rb, 1e-4, rn, tol_sum):
+        ctx.event("default-run:ambiguous-or-nonfinite-skipped")
+        return
+    if (ra.num_iterations, bool(ra.converged)) != (rb.num_iterations, bool(rb.converged)):
+        return ctx.fail("report-frame-dependent", "default optimize(): (num_iterations, converged) = %r in the original frame, %r in the transformed frame" % ((ra.num_iterations, ra.converged), (rb.num_iterations, rb.converged)))
+    for i, (v1, v2) in enumerate(zip(g3._vertices, g4._vertices)):
+        kk = gs.kind_of(v1.pose)
+        p1 = gs.stored(v1.pose)
+        want = R.mul(base, Tv, p1) if kk == base else R.act(base, Tv, p1)
+        want = [R.val(x) for x in want]
+        dt, dr = GC.pose_diff(kk, gs.stored(v2.pose), want)
+        tt = 1e-8 * (1 + S_ + ST) * amp
+        tr = 1e-8 * amp * (1 + 1e-4 * ST)
+        if not (dt <= tt and dr <= tr):
+            return ctx.fail("trajectory-frame-dependent", "vertex #%d after a default optimize() (%d iterations): T(+)v differs from v' by (%.3e, %.3e), tol (%.3e, %.3e)" % (i, ra.num_iterations, dt, dr, tt, tr))
+    ctx.event("default-run:compared")
